@@ -3,7 +3,8 @@
 package api
 
 // Correspondence driver for property C04 (injected by `go test -overlay`, never part of
-// /repo).  Runs the real getMessages goroutine against real OutputStreams (one per node,
+// /repo).  Tied to the code by the NAME getMessages only (parameters recognised by type, see
+// verifResCallPlan).  Runs the real getMessages goroutine against real OutputStreams (one per node,
 // LevelDB under $TMPDIR) and plays the HTTP handler's per-session filter and the client.
 //
 //   res <session> <id>.<reply> <step>*
@@ -36,6 +37,7 @@ import (
 	"sync"
 	"testing"
 	"time"
+	"unsafe"
 
 	"github.com/robustirc/robustirc/internal/outputstream"
 	"github.com/robustirc/robustirc/internal/robust"
@@ -102,6 +104,170 @@ func verifResGuard(d time.Duration, f func()) (done bool, panicked bool) {
 		return true, p
 	case <-time.After(d):
 		return false, false
+	}
+}
+
+// ---- calling getMessages without depending on its exact parameter list ------------------
+// The driver is tied to the NAME getMessages only.  Its parameters are recognised by type:
+// the receiver, a context, the channel of message batches, robust.Id values (one: the resume
+// position; two: session and resume position, their order is found by a calibration run),
+// a uint64 / string (the session id); anything else gets its zero value.  A refactoring of the
+// signature therefore does not break the tie; a change of behaviour is left to the monitor.
+type verifResCallPlan struct {
+	fn         reflect.Value
+	kinds      []string
+	ids        []int // indexes of the robust.Id parameters
+	sessIdx    int   // which of them is the session (-1: none)
+	lastIdx    int
+	err        string
+	calibrated string
+}
+
+var verifResPlan *verifResCallPlan
+
+func verifResMakePlan() *verifResCallPlan {
+	pl := &verifResCallPlan{fn: reflect.ValueOf((*HTTP).getMessages), sessIdx: -1, lastIdx: -1}
+	t := pl.fn.Type()
+	ctxT := reflect.TypeOf((*context.Context)(nil)).Elem()
+	batchT := reflect.TypeOf([]*robust.Message(nil))
+	hasChan := false
+	for i := 0; i < t.NumIn(); i++ {
+		pt := t.In(i)
+		switch {
+		case pt == reflect.TypeOf((*HTTP)(nil)):
+			pl.kinds = append(pl.kinds, "recv")
+		case pt == ctxT:
+			pl.kinds = append(pl.kinds, "ctx")
+		case pt == reflect.TypeOf(robust.Id{}):
+			pl.kinds = append(pl.kinds, "id")
+			pl.ids = append(pl.ids, i)
+		case pt.Kind() == reflect.Chan && pt.Elem() == batchT && pt.ChanDir()&reflect.SendDir != 0:
+			pl.kinds = append(pl.kinds, "chan")
+			hasChan = true
+		case pt.Kind() == reflect.Uint64:
+			pl.kinds = append(pl.kinds, "sessnum")
+		case pt.Kind() == reflect.String:
+			pl.kinds = append(pl.kinds, "sessstr")
+		default:
+			pl.kinds = append(pl.kinds, "zero")
+		}
+	}
+	if !hasChan || len(pl.ids) == 0 {
+		pl.err = "getMessages has no recognisable (robust.Id, chan<- []*robust.Message) parameters: " + t.String()
+		return pl
+	}
+	pl.lastIdx = pl.ids[len(pl.ids)-1]
+	if len(pl.ids) >= 2 {
+		pl.sessIdx = pl.ids[0]
+	}
+	return pl
+}
+
+func (pl *verifResCallPlan) call(h *HTTP, ctx context.Context, sess uint64, lastSeen robust.Id, ch chan []*robust.Message) {
+	t := pl.fn.Type()
+	args := make([]reflect.Value, t.NumIn())
+	for i, k := range pl.kinds {
+		switch k {
+		case "recv":
+			args[i] = reflect.ValueOf(h)
+		case "ctx":
+			args[i] = reflect.ValueOf(ctx)
+		case "chan":
+			args[i] = reflect.ValueOf(ch).Convert(t.In(i))
+		case "sessnum":
+			args[i] = reflect.ValueOf(sess).Convert(t.In(i))
+		case "sessstr":
+			args[i] = reflect.ValueOf(strconv.FormatUint(sess, 10)).Convert(t.In(i))
+		case "id":
+			switch i {
+			case pl.lastIdx:
+				args[i] = reflect.ValueOf(lastSeen)
+			case pl.sessIdx:
+				args[i] = reflect.ValueOf(robust.Id{Id: sess})
+			default:
+				args[i] = reflect.Zero(t.In(i))
+			}
+		default:
+			args[i] = reflect.Zero(t.In(i))
+		}
+	}
+	pl.fn.Call(args)
+}
+
+// verifResNewHTTP builds the receiver: only the output stream is needed by getMessages.
+func verifResNewHTTP(o *outputstream.OutputStream) (*HTTP, string) {
+	h := &HTTP{}
+	v := reflect.ValueOf(h).Elem()
+	f := v.FieldByName("outputUnlocked")
+	if !f.IsValid() || f.Type() != reflect.TypeOf(o) {
+		f = reflect.Value{}
+		for i := 0; i < v.NumField(); i++ {
+			if v.Field(i).Type() == reflect.TypeOf(o) {
+				f = v.Field(i)
+				break
+			}
+		}
+	}
+	if !f.IsValid() {
+		return nil, "api.HTTP has no *outputstream.OutputStream field"
+	}
+	reflect.NewAt(f.Type(), unsafe.Pointer(f.UnsafeAddr())).Elem().Set(reflect.ValueOf(o))
+	return h, ""
+}
+
+// verifResCalibrate finds out which robust.Id parameter is the resume position when there are
+// two: with the stream {3, 6} (both for session 1) and the pair (session 1, lastseen 5.0) the
+// right assignment delivers batch 6 first.
+func (pl *verifResCallPlan) calibrate(tmp string) {
+	if len(pl.ids) < 2 {
+		return
+	}
+	try := func(sessIdx, lastIdx int) bool {
+		o, err := outputstream.NewOutputStream(tmp)
+		if err != nil {
+			return false
+		}
+		defer o.Close()
+		for _, id := range []uint64{3, 6} {
+			o.Add([]outputstream.Message{{Id: robust.Id{Id: id, Reply: 1}, Data: "x", InterestingFor: map[uint64]bool{1: true}}})
+		}
+		h, herr := verifResNewHTTP(o)
+		if herr != "" {
+			return false
+		}
+		cand := *pl
+		cand.sessIdx, cand.lastIdx = sessIdx, lastIdx
+		ctx, cancel := context.WithCancel(context.Background())
+		ch := make(chan []*robust.Message)
+		exited := make(chan struct{})
+		go func() {
+			defer close(exited)
+			defer func() { recover() }()
+			cand.call(h, ctx, 1, robust.Id{Id: 5}, ch)
+		}()
+		ok := false
+		select {
+		case b := <-ch:
+			ok = len(b) > 0 && b[0].Id.Id == 6
+		case <-exited:
+		case <-time.After(2 * time.Second):
+		}
+		cancel()
+		verifResGuard(2*time.Second, func() { o.InterruptGetNext() })
+		select {
+		case <-exited:
+		case <-time.After(2 * time.Second):
+		}
+		return ok
+	}
+	a, b := pl.ids[0], pl.ids[len(pl.ids)-1]
+	switch {
+	case try(a, b):
+		pl.sessIdx, pl.lastIdx, pl.calibrated = a, b, "session,lastseen"
+	case try(b, a):
+		pl.sessIdx, pl.lastIdx, pl.calibrated = b, a, "lastseen,session"
+	default:
+		pl.calibrated = "undetermined"
 	}
 }
 
@@ -230,7 +396,10 @@ loop:
 			}
 			ctx, cancel := context.WithCancel(context.Background())
 			c := &verifConn{node: node(p[1]), cancel: cancel, ch: make(chan []*robust.Message), exited: make(chan struct{})}
-			h := &HTTP{outputUnlocked: c.node}
+			h, herr := verifResNewHTTP(c.node)
+			if herr != "" {
+				return "res harness-error:" + herr
+			}
 			ls := last
 			go func() {
 				defer close(c.exited)
@@ -241,7 +410,7 @@ loop:
 						c.mu.Unlock()
 					}
 				}()
-				h.getMessages(ctx, ls, c.ch)
+				verifResPlan.call(h, ctx, sess, ls, c.ch)
 			}()
 			conn = c
 			_, _, timeout := pull(time.Now().Add(deadlineDur))
@@ -347,6 +516,11 @@ func TestVerifRes(t *testing.T) {
 	}
 	tmp := t.TempDir()
 	results := make([]string, len(cases))
+	verifResPlan = verifResMakePlan()
+	if verifResPlan.err == "" {
+		verifResPlan.calibrate(tmp)
+	}
+	t.Logf("getMessages signature: %s (plan %v, calibration %q)", verifResPlan.fn.Type(), verifResPlan.kinds, verifResPlan.calibrated)
 	var wg sync.WaitGroup
 	width := 4 * runtime.NumCPU()
 	if width < 16 {
@@ -366,6 +540,10 @@ func TestVerifRes(t *testing.T) {
 			}()
 			if cases[i][0] != "res" {
 				results[i] = "unknown-case-kind"
+				return
+			}
+			if verifResPlan.err != "" {
+				results[i] = "res harness-error:" + strings.ReplaceAll(verifResPlan.err, " ", "_")
 				return
 			}
 			results[i] = verifResRunCase(cases[i], tmp)
